@@ -72,6 +72,7 @@ type Node struct {
 
 	RO, SuperRO, Offline bool
 	Executed, Retrieved  string
+	Dropped              string // received transactions thrown away unexecuted by RESET REPLICA ALL / CHANGE REPLICATION SOURCE (ground truth for monitors)
 	Chan                 *Chan // nil = no replication channel configured (a master)
 	SSMaster, SSSlave    bool
 	SSSlaveEffective     bool // latched when the IO thread last started
@@ -935,6 +936,7 @@ func (w *World) apply(n *Node, sess *session, q, kind, arg string) (result, stri
 			return result{errno: 3081, msg: "This operation cannot be performed with running replication threads"}, ""
 		}
 		n.Chan = nil
+		n.Dropped = GtidUnion(n.Dropped, n.Retrieved)
 		n.Retrieved = ""
 		return okRes, "ROk"
 	case "SChangeSource":
@@ -942,6 +944,7 @@ func (w *World) apply(n *Node, sess *session, q, kind, arg string) (result, stri
 			return result{errno: 3021, msg: "This operation cannot be performed with a running replica io thread"}, ""
 		}
 		n.Chan = &Chan{Source: arg}
+		n.Dropped = GtidUnion(n.Dropped, n.Retrieved)
 		n.Retrieved = ""
 		return okRes, "ROk"
 	case "SSemiSetMaster":
